@@ -33,7 +33,9 @@ class Packet:
         Note: as a performance optimization, subsequent calls to this method
         will return a cached encoded packet, even if the data has changed.
         """
-        if self.encode_cache:
+        if self.encode_cache and not self.binary:
+            # binary packets are encoded differently for each channel kind,
+            # so their encoding cannot be served from the cache
             return self.encode_cache
         if self.binary:
             if b64:
